@@ -552,6 +552,12 @@ func (x *fx) safety(class, desc string, goal Term, p token.Pos) {
 	if goal == "true" {
 		return
 	}
+	if class == "panic" {
+		if root := x.rootContract(); root != nil && root.Recovered {
+			x.e.trusted["explicit panics in "+x.e.unitName+" are recovered by the caller (RunProgram's deferred recover)"] = true
+			return
+		}
+	}
 	var props []string
 	root := x
 	_ = root
